@@ -1,2 +1,2 @@
-import OG.C02.Driver
-def main : IO Unit := OG.C02.main
+import OG.C02.DriverMem
+def main : IO Unit := OG.C02.mainAll
